@@ -976,6 +976,12 @@ class StructShim:
 def sym_len(x):
     if isinstance(x, (SBytes, SByteArray)):
         return x.length()
+    f = getattr(type(x), "__len__", None)
+    if f is not None and not isinstance(x, (str, builtins.bytes, list, tuple,
+                                            dict, set, builtins.bytearray)):
+        r = f(x)                 # a user class may compute a symbolic length
+        if isinstance(r, SInt):
+            return r
     return builtins.len(x)
 
 
